@@ -66,6 +66,11 @@ pub struct NodeSpec {
     pub leak: u32,
     #[serde(default)]
     pub canary: bool,
+    /// simulated wall-clock start (epoch seconds) and process id, when the scenario owns them
+    #[serde(default, skip_serializing_if = "Option::is_none")]
+    pub clock: Option<i64>,
+    #[serde(default, skip_serializing_if = "Option::is_none")]
+    pub pid: Option<i64>,
 }
 
 #[derive(Clone, Debug)]
@@ -238,6 +243,12 @@ pub fn run_node(w: &WorldDir, bins: &Bins, spec: &NodeSpec) -> NodeRun {
     let _ = std::fs::create_dir_all(&cwd); // a minimised op list may have lost the mkdir
 
     let mut plan = format!("root={};trace={};hashseed={}", root_s, w.trace().display(), spec.hashseed);
+    if let Some(c) = spec.clock {
+        plan.push_str(&format!(";clock={c}"));
+    }
+    if let Some(p) = spec.pid {
+        plan.push_str(&format!(";pid={p}"));
+    }
     for f in &spec.faults {
         plan.push_str(";at=");
         plan.push_str(f);
